@@ -259,3 +259,11 @@ From BB Require Gen.Guards Proofs.Guards.
 Theorem C15_resolve_labels_from_source : Proofs.Guards.resolve_labels_from_source_stmt.
 Proof. exact Proofs.Guards.resolve_labels_from_source. Qed.
 Print Assumptions C15_resolve_labels_from_source.
+
+(* ---- the model is a FUNCTION of the program and the options, and so is the code it models: the effect summary regenerated from asm.py
+   passes summary_ok (no module-level object written by anything reachable from assemble(), no mutable default, no set iteration order
+   consumed; Proofs/Effects.v noninterference) -- a memo table or cache that outlives a call makes a pure model unfaithful *)
+From BB Require Gen.Effects Proofs.Effects Proofs.EffectsOk.
+Theorem C15_assemble_is_a_function_of_its_inputs : Proofs.Effects.summary_ok Gen.Effects.summary = true.
+Proof. exact Proofs.EffectsOk.summary_ok_holds. Qed.
+Print Assumptions C15_assemble_is_a_function_of_its_inputs.
